@@ -82,6 +82,8 @@ class PinWorld:
         self.ambiguous_reentries = 0
         self.reentry_at_timeout = 0
         self.exact_late_arrivals = 0
+        self.late_targets = set()       # devices that received (or are to receive) a ball later than the eject timeout
+        self.last_pf_activity = -1.0    # last playfield switch hit / capture from the playfield (confirms pending ejects)
 
     # ------------------------------------------------------------------------------------------
     def attach(self):
@@ -194,18 +196,25 @@ class PinWorld:
         sw = ball.switch
         ball.kind, ball.src, ball.dst, ball.switch = "transit", info.name, info.target.name, None
         ball.since = self.sim.now
+        # another ball that entered this device within its count delay (possibly in this very instant) makes the
+        # departure invisible or ambiguous to the device's switches, exactly like a ball entering right after it
+        ball.ambiguous = any(o is not ball and o.kind == "dev" and o.dev == info.name and
+                             self.sim.now - o.since <= max(info.entrance_count_delay, info.exit_count_delay) + 0.1
+                             for o in self.balls)
         if sw is not None:
             self._switch(sw, 0)
         elif info.entrance_switch is not None and info.entrance_full_timeout:
             pass
         if outcome == "fallback":
             ball.dst = info.name
-            back = self.rt.pick("fallback_delay", [0.3, 0.15, 0.6, 1.0])
+            # a ball that falls back does so within the device's eject timeout (that is what the timeout is configured for)
+            back = min(self.rt.pick("fallback_delay", [0.3, 0.15, 0.6, 1.0, 2.5]), info.eject_timeout * 0.8)
             self._later(back, self._arrive, ball, info.name, True)
             return
         if info.confirm_switch is not None:
             self._later(0.05, self._pulse_switch, info.confirm_switch, 0.02)
         if outcome == "late":
+            self.late_targets.add(info.target.name)
             extra = self.rt.pick("late_extra", [0.2, 0.05, 1.0, 2.5, "exact"])
             if extra == "exact":
                 # counted in the target in the very instant the source gives the ball up for lost
@@ -308,6 +317,7 @@ class PinWorld:
         if self.count(devname) + self.in_transit_to(devname) >= info.capacity:
             return False
         ball = lb[pick % len(lb)]
+        self.last_pf_activity = self.sim.now + 1.5      # its entry (a moment from now) is playfield activity
         ball.kind, ball.src, ball.dst = "transit", ball.dev, devname
         ball.since = self.sim.now
         self._later(self.rt.pick("roll_in", [0.2, 0.05, 0.5]), self._arrive, ball, devname, False)
@@ -316,6 +326,7 @@ class PinWorld:
     def loose_ball_hits(self, swname):
         if not self.loose():
             return False
+        self.last_pf_activity = self.sim.now
         self._pulse_switch(self.m.switches[swname], 0.02)
         return True
 
